@@ -27,6 +27,32 @@ type graph struct {
 	// successThresholdSinks specifies how many sinks must successfully process
 	// an event for Process to not return an error.
 	successThresholdSinks int
+
+	// thresholdLock guards successThreshold and successThresholdSinks, which
+	// are read by process (without the Broker's lock) while the Broker's
+	// setters may be changing them.
+	thresholdLock sync.RWMutex
+}
+
+// thresholds returns the graph's current success thresholds.
+func (g *graph) thresholds() (successThreshold, successThresholdSinks int) {
+	g.thresholdLock.RLock()
+	defer g.thresholdLock.RUnlock()
+	return g.successThreshold, g.successThresholdSinks
+}
+
+// setSuccessThreshold sets the graph's success threshold.
+func (g *graph) setSuccessThreshold(successThreshold int) {
+	g.thresholdLock.Lock()
+	defer g.thresholdLock.Unlock()
+	g.successThreshold = successThreshold
+}
+
+// setSuccessThresholdSinks sets the graph's success threshold for sinks.
+func (g *graph) setSuccessThresholdSinks(successThresholdSinks int) {
+	g.thresholdLock.Lock()
+	defer g.thresholdLock.Unlock()
+	g.successThresholdSinks = successThresholdSinks
 }
 
 // Process the Event by routing it through all of the graph's nodes,
@@ -68,7 +94,8 @@ func (g *graph) process(ctx context.Context, e *Event) (Status, error) {
 			}
 		}
 	}
-	return status, status.getError(ctx.Err(), g.successThreshold, g.successThresholdSinks)
+	threshold, thresholdSinks := g.thresholds()
+	return status, status.getError(ctx.Err(), threshold, thresholdSinks)
 }
 
 // Recursively process every node in the graph.
